@@ -74,6 +74,67 @@ def run(tier, replay=None):
         kt1 = [(t[0], t[3]) for t in r1["toks"]]
         if r1["outcome"] != "ok" or r1["err"] or kt0 != kt1:
             ck.violation("inserting blanks at a token boundary changes the tokens: %r -> %s, %r -> %s" % (e["base"]["src"], kt0, e["src"], kt1), e)
+    # ---- inputs far beyond the bound, composed from specified pieces.  Tokenisation is local: for strings u, v the specification accepts,
+    # tokens(u "\n" v) = tokens(u) without its closing EOL/EOF, the line break's EOL, tokens(v) shifted by |u| + 1.  That composition law is
+    # first checked on the specification's own output (every enumerated accepted string with a line break whose two sides were enumerated
+    # too); then texts of 70 KB to 200 KB (thorough 1.1 MB) are composed from concrete pieces and lexed by the real lexer in one go.
+    by_inp = {tuple(o["inp"]): o for o in acc}
+
+    def body(toks):          # without the closing EOF and the synthetic EOL (span 0,0) that precedes it when the text does not end in a line break
+        t = toks[:-1]
+        return t[:-1] if t and t[-1][1] == 0 and t[-1][2] == 0 and t[-1][0] == t0eol else t
+
+    def finish(seq, eof, eol):          # a single final EOL: a synthetic one only if the last token is not a line break already
+        return seq + ([eof] if seq and seq[-1][0] == eol[0] else [eol, eof])
+    t0eol = next(t[0] for o in acc for t in o["toks"][:-1] if t[1] == 0 and t[2] == 0)
+    t0eof = acc[0]["toks"][-1]
+    law = 0
+    for o in acc:
+        inp = o["inp"]
+        for k, ch in enumerate(inp):
+            if ch != "n":
+                continue
+            u, v = by_inp.get(tuple(inp[:k])), by_inp.get(tuple(inp[k + 1:]))
+            if u is None or v is None or inp[:k].count("q") % 2 == 1:
+                continue
+            composed = finish(body(u["toks"]) + [[t0eol, k, k + 1]] + [[t[0], t[1] + k + 1, t[2] + k + 1] for t in body(v["toks"])], t0eof, [t0eol, 0, 0])
+            if composed != o["toks"]:
+                raise vlib.Infra("the composition law of tokenisation fails on the specification itself: %s at %d: %s vs %s" % ("".join(inp), k, composed, o["toks"]))
+            law += 1
+    ck.part("composition law of tokenisation on the specification's own output", splits_checked=law)
+    pieces = [c for c in cases if c["src"].count('"') % 2 == 0 and len(c["toks"]) >= 3]
+    ceol = next(t[0] for c in cases for t in c["toks"][:-1] if t[1] == 0 and t[2] == 0)
+    ceof = cases[0]["toks"][-1]
+
+    def cbody(toks):
+        t = toks[:-1]
+        return t[:-1] if t and t[-1][1] == 0 and t[-1][2] == 0 and t[-1][0] == ceol else t
+    longs = []
+    for target in ([70000, 140000, 200000] if tier == "quick" else [70000, 140000, 200000, 600000, 1100000]):
+        for variant in range(2):
+            toks, parts, off = [], [], 0
+            while off < target:
+                c = rnd.choice(pieces)
+                toks += [[t[0], t[1] + off, t[2] + off] for t in cbody(c["toks"])]
+                parts.append(c["src"])
+                off += len(c["src"].encode("utf-8"))
+                toks.append([ceol, off, off + 1])
+                parts.append("\n")
+                off += 1
+            c = rnd.choice(pieces)
+            toks += [[t[0], t[1] + off, t[2] + off] for t in cbody(c["toks"])]
+            toks = toks + ([list(ceof)] if toks and toks[-1][0] == ceol else [[ceol, 0, 0], list(ceof)])
+            parts.append(c["src"])
+            longs.append({"id": 9000000 + len(longs), "src": "".join(parts), "classes": "composed, %d bytes" % (off + len(c["src"].encode("utf-8"))), "toks": toks, "err": False})
+    lres = frontlib.run_front(longs)
+    for c in longs:
+        d = compare_accepted(c, lres[c["id"]])
+        ck.cov["evaluations"] += 1
+        ck.cov["traces_validated_against_impl"] += 1
+        nontriv += 1
+        if d:
+            ck.violation("a text of %d bytes composed of specified pieces: %s" % (len(c["src"].encode("utf-8")), d[:400]), c)
+    ck.part("texts composed of specified pieces, lexed in one go", texts=len(longs), longest_bytes=max(len(c["src"].encode("utf-8")) for c in longs))
     ck.cov["distinct_nontrivial"] = nontriv
     # binding self-test: shifting one specified span by one must be noticed
     st = 0
